@@ -244,7 +244,13 @@ pub fn enumerate(family: &str, thorough: bool, f: &mut dyn FnMut(&str, Vec<u8>))
             });
         }
         "literals" => {
-            for l in crate::checks::c09::literals() {
+            // (the complete field sweeps of time and date literals are C09's and C01's; here every 25th of them
+            // in the quick tier — a crash that depends on one field value among thousands is found by C01, which
+            // parses them all under the same panic guard)
+            for (k, l) in crate::checks::c09::literals().into_iter().enumerate() {
+                if !thorough && (l.label.starts_with("tod/") || l.label.starts_with("date/") || l.label.starts_with("dt/")) && k % 25 != 0 {
+                    continue;
+                }
                 let text = spell(&crate::checks::c09::program(&l).v).text;
                 f("c09-literal", text.into_bytes());
             }
@@ -363,6 +369,29 @@ pub fn enumerate(family: &str, thorough: bool, f: &mut dyn FnMut(&str, Vec<u8>))
                 }
             }
         }
+        "case-mapping" => {
+            // characters whose upper- or lower-case form has another length in bytes (code that searches a case-folded
+            // copy and slices the original goes wrong on them), 1 to 4 of them, in every textual context, with
+            // multi-byte text of every width packed around the places an offset could shift to
+            let chars = ["\u{fb01}", "\u{131}", "\u{390}", "\u{130}", "\u{df}", "\u{149}", "\u{1f0}", "\u{1e9e}", "\u{17f}", "\u{212a}", "\u{1f80}", "\u{10400}"];
+            let fillers = ["\u{b0}\u{e4}\u{b2}\u{b0}\u{e4}\u{b2}", "\u{20ac}\u{20ac}\u{20ac}\u{20ac}", "\u{1F600}\u{1F600}\u{1F600}", "\u{b0}\u{20ac}\u{1F600}\u{b0}\u{20ac}", "xyz"];
+            let code = "FUNCTION_BLOCK F VAR a : INT ; END_VAR IF a > 1 THEN a := 1 ; END_IF END_FUNCTION_BLOCK";
+            for c in chars {
+                for k in 1..=4usize {
+                    let cs = c.repeat(k);
+                    for fl in fillers {
+                        f("comment-before-description", format!("(* {} *)\n(*@KEY@:DESCRIPTION*)\n{}\n(*@KEY@:END_DESCRIPTION*)(* {} *)\n{} (* {} *)", cs, fl, fl, code, fl).into_bytes());
+                        f("inside-description", format!("(*@KEY@:DESCRIPTION*)\n{} {}\n(*@KEY@:END_DESCRIPTION*)(* {} *)\n{} (* {} *)", cs, fl, fl, code, fl).into_bytes());
+                        f("description-in-lower-case-keys", format!("(* {} *)(*@key@:description*)\n{}\n(*@key@:end_description*)(* {} *)\n{}", cs, fl, fl, code).into_bytes());
+                        f("comment-before-code", format!("(* {} *) {} (* {} *)", cs, code, fl).into_bytes());
+                        f("comment-before-end-if", format!("FUNCTION_BLOCK F VAR a : INT ; END_VAR (* {} *) IF a > 1 THEN a := 1 ; END_IF (* {} *) END_FUNCTION_BLOCK (* {} *)", cs, fl, fl).into_bytes());
+                        f("string-before-code", format!("FUNCTION_BLOCK F VAR s : STRING := '{}' ; t : STRING := '{}' ; END_VAR IF s = t THEN s := t ; END_IF END_FUNCTION_BLOCK (* {} *)", cs, fl, fl).into_bytes());
+                        f("invalid-text-before-code", format!("{} {} (* {} *)", cs, code, fl).into_bytes());
+                        f("two-descriptions", format!("(*@KEY@:DESCRIPTION*){}(*@KEY@:END_DESCRIPTION*)\n{}\n(*@KEY@:DESCRIPTION*){}(*@KEY@:END_DESCRIPTION*)(* {} *)", cs, code, fl, fl).into_bytes());
+                    }
+                }
+            }
+        }
         "invocations" => {
             // function block invocations: a callee with 0..3 inputs, 0..3 in-outs and 0..2 outputs, called with
             // 0..8 positional arguments, with every named subset, and with a mixture; and the same for a function
@@ -411,7 +440,7 @@ pub fn enumerate(family: &str, thorough: bool, f: &mut dyn FnMut(&str, Vec<u8>))
     }
 }
 
-pub const FAMILIES: [&str; 13] = ["edit1", "edit2", "bytes", "tokens", "nesting", "size", "literals", "bodies", "graphs", "truncate", "resources", "long-tokens", "invocations"];
+pub const FAMILIES: [&str; 14] = ["edit1", "edit2", "bytes", "tokens", "nesting", "size", "literals", "bodies", "graphs", "truncate", "resources", "long-tokens", "invocations", "case-mapping"];
 
 fn decode(bytes: &[u8]) -> String {
     match std::str::from_utf8(bytes) {
@@ -668,7 +697,7 @@ fn run_slice(family: &str, thorough: bool, start: usize, end: usize, stride: usi
 
 pub fn run(ctx: &mut Ctx) {
     let thorough = ctx.tier.thorough();
-    ctx.rule = "families: edit1 (every host x every token position x {delete, duplicate, swap, replace by / insert each lexeme of the alphabet}), edit2 (every pair of alphabet lexemes inserted at positions of small hosts), bytes (every byte string of length <= 2; thorough: length 3 over a 70-byte alphabet), tokens (every token string of length <= 2, spaced and abutting; thorough: length 3), nesting (19 constructors x depth 1..12 x {valid, bad core, missing closer}), size (18 inputs of ~64 KiB), literals (the C09 space and numeric extremes in 10 other positions); distinct = inputs are distinct by construction (counted); bodies (every string up to length 4, thorough 5, over the characters that are special inside a single- or double-quoted string, a comment, a duration, a based integer, a direct address, a number and a date-and-time literal, in that context); graphs (every reference graph among up to 4 declarations, cyclic ones included); truncate (every prefix of every host that ends after a lexeme, bare and followed by a line end, a comment, an opened comment, an opened string); resources (every file of compiler/resources/test as it is, cut after every line, and with every single line removed); long-tokens (a syntax error at a string or comment of 1 to 130 characters, thorough 300, ending in a multi-byte, control or zero-width character); invocations (a callee with 0..2, thorough 3, inputs and in-outs and 0..2 outputs x every positional argument count, every named subset, with and without an output, and mixtures)".into();
+    ctx.rule = "families: edit1 (every host x every token position x {delete, duplicate, swap, replace by / insert each lexeme of the alphabet}), edit2 (every pair of alphabet lexemes inserted at positions of small hosts), bytes (every byte string of length <= 2; thorough: length 3 over a 70-byte alphabet), tokens (every token string of length <= 2, spaced and abutting; thorough: length 3), nesting (19 constructors x depth 1..12 x {valid, bad core, missing closer}), size (18 inputs of ~64 KiB), literals (the C09 space and numeric extremes in 10 other positions); distinct = inputs are distinct by construction (counted); bodies (every string up to length 4, thorough 5, over the characters that are special inside a single- or double-quoted string, a comment, a duration, a based integer, a direct address, a number and a date-and-time literal, in that context); graphs (every reference graph among up to 4 declarations, cyclic ones included); truncate (every prefix of every host that ends after a lexeme, bare and followed by a line end, a comment, an opened comment, an opened string); resources (every file of compiler/resources/test as it is, cut after every line, and with every single line removed); long-tokens (a syntax error at a string or comment of 1 to 130 characters, thorough 300, ending in a multi-byte, control or zero-width character); invocations (a callee with 0..2, thorough 3, inputs and in-outs and 0..2 outputs x every positional argument count, every named subset, with and without an output, and mixtures); case-mapping (12 characters whose upper- or lower-case form has another byte length x 1..4 of them x 8 textual contexts x 5 multi-byte fillers)".into();
     ctx.assumptions.push(format!("each input runs tokenize, parse, and if it parses analyze and render, under catch_unwind on a thread with an 8 MiB stack in a worker process; budget {} s per input; the build has overflow checks and debug assertions on", BUDGET.as_secs()));
     ctx.assumptions.push("byte strings that are not UTF-8 are decoded as Latin-1 (the file reader falls back to Windows-1252, which differs only in 0x80-0x9F, all of which the lexer treats alike)".into());
     ctx.bounds.insert("alphabet_lexemes".into(), json!(alphabet().len()));
